@@ -11,7 +11,7 @@ from harness.runner import Result
 PROPERTY = "C25"
 LEVEL = "exploration"
 RULE = (
-    "history = a Revolute joint between (fixed Frame | RigidBody) and a RigidBody with generated axis index, joint "
+    "history = a Revolute joint between (fixed Frame | Frame turning about the joint axis with a prescribed rate | RigidBody) and a RigidBody with generated axis index, joint "
     "basis A_IJ0, joint point r_OJ0 and angle0, followed by up to 300 operations: rotate body 2 about the joint axis "
     "by an increment in (-pi/2, pi/2) (increments are drawn with a persistent sign so that several full turns in "
     "both directions occur), move both bodies by a common rigid motion, rescale a quaternion (non-unit), query the "
@@ -41,7 +41,9 @@ LIM = math.pi / 2 - 1e-6
 @st.composite
 def _history(draw):
     setup = {
-        "body1": draw(st.sampled_from(["frame", "rigid", "rigid"])),
+        # frame_rotating: a Frame that turns about the joint axis through the joint point with rate w (prescribed motion)
+        "body1": draw(st.sampled_from(["frame", "rigid", "rigid", "frame_rotating"])),
+        "w": draw(gen.f(0.3, 3.0)) * draw(st.sampled_from([1.0, -1.0])),
         "axis": draw(st.integers(0, 2)),
         "psi_J": draw(gen.rotvec(min_exp=-2, near_max=False)),
         "r_OJ0": [draw(gen.f(-1, 1)) for _ in range(3)],
@@ -53,7 +55,7 @@ def _history(draw):
     ops = []
     sign = 1.0
     for _ in range(n):
-        kind = draw(st.sampled_from(["rot", "rot", "rot", "rot", "rot", "rot", "flip", "move", "rescale", "twice", "rate", "reset", "reassemble"]))
+        kind = draw(st.sampled_from(["rot", "rot", "rot", "rot", "rot", "rot", "flip", "move", "rescale", "twice", "rate", "reset", "reassemble", "time"]))
         if kind == "flip":
             sign = -sign
             kind = "rot"
@@ -63,6 +65,9 @@ def _history(draw):
             if draw(st.integers(0, 9)) == 0:
                 d = -d
             ops.append({"op": "rot", "d": sign * d})
+        elif kind == "time":
+            # let time pass: a prescribed frame turns by d about the joint axis (no effect for other first bodies)
+            ops.append({"op": "time", "d": draw(gen.f(-LIM, LIM))})
         elif kind == "move":
             ops.append({"op": "move", "psi": draw(gen.rotvec(min_exp=-2, near_max=False)), "b": [draw(gen.f(-1, 1)) for _ in range(3)]})
         elif kind == "rescale":
@@ -96,7 +101,17 @@ def check(spec):
     system = sysbuild.new_system(0.0)
     q1 = np.array(list(su["r1"]) + list(su["P1"]), dtype=float)
     q2 = np.array(list(su["r2"]) + list(su["P2"]), dtype=float)
-    if su["body1"] == "frame":
+    A_IJ = gen._exp(np.array(su["psi_J"], dtype=float))
+    e0 = A_IJ[:, su["axis"]].copy()
+    rJ0 = np.array(su["r_OJ0"], dtype=float)
+    w = float(su.get("w", 1.0))
+    if su["body1"] == "frame_rotating":
+        A10 = gen.quat_to_R(q1[3:])
+        K = gen._skew(e0)
+        b1 = Frame(r_OP=rJ0.copy(), A_IB=lambda t_: gen._exp(e0 * w * t_) @ A10,
+                   A_IB_t=lambda t_: w * K @ gen._exp(e0 * w * t_) @ A10,
+                   A_IB_tt=lambda t_: w * w * K @ K @ gen._exp(e0 * w * t_) @ A10, name="b1")
+    elif su["body1"] == "frame":
         b1 = Frame(r_OP=q1[:3].copy(), A_IB=gen.quat_to_R(q1[3:]), name="b1")
     else:
         b1 = RigidBody(1.0, np.eye(3), q0=q1.copy(), name="b1")
@@ -105,16 +120,16 @@ def check(spec):
     joint = sysbuild.make_joint(js, b1, b2)
     system.add(b1, b2, joint)
     sysbuild.assemble(system)
-    A_IJ = gen._exp(np.array(su["psi_J"], dtype=float))
-    e = A_IJ[:, su["axis"]].copy()
-    rJ = np.array(su["r_OJ0"], dtype=float)
+    e = e0.copy()
+    rJ = rJ0.copy()
     movable1 = su["body1"] == "rigid"
+    tcur = [0.0]
 
     def state():
         return np.concatenate([q1, q2]) if movable1 else q2.copy()
 
     def query():
-        return float(joint.l(0.0, state()))
+        return float(joint.l(tcur[0], state()))
 
     model = su["angle0"]
     total = 0.0  # accumulated rotation since assembly
@@ -141,6 +156,20 @@ def check(spec):
             if abs(got - model) > 1e-9 * (1 + abs(model)):
                 res.fail("angle_is_initial_angle_plus_accumulated_rotation", site, abs(got - model), feats,
                          f"step {i}: reported {got:.9f}, model {model:.9f} (increment {d:.6f})")
+                return res
+        elif o == "time":
+            if su["body1"] != "frame_rotating":
+                continue
+            d = op["d"]
+            tcur[0] += d / w
+            model -= d
+            total -= d
+            max_abs = max(max_abs, abs(total))
+            got = query()
+            res.ok()
+            if abs(got - model) > 1e-9 * (1 + abs(model)):
+                res.fail("angle_follows_prescribed_frame_rotation", site, abs(got - model), feats,
+                         f"step {i}: reported {got:.9f}, model {model:.9f} (frame turned by {d:.6f})")
                 return res
         elif o == "move":
             if not movable1:
@@ -171,7 +200,7 @@ def check(spec):
                 q1 = np.concatenate([q1[:3], q1[3:] / np.linalg.norm(q1[3:])])
             q2 = np.concatenate([q2[:3], q2[3:] / np.linalg.norm(q2[3:])])
         elif o == "twice":
-            g1, g2 = query(), float(joint.angle(0.0, state()))
+            g1, g2 = query(), float(joint.angle(tcur[0], state()))
             res.ok()
             if g1 != g2 or abs(g1 - model) > 1e-9 * (1 + abs(model)):
                 res.fail("repeated_query_does_not_change_the_angle", site, abs(g1 - g2), feats, f"step {i}: {g1!r} then {g2!r}")
@@ -182,9 +211,11 @@ def check(spec):
             uu = np.concatenate([u1, u2])
             w1 = gen.quat_to_R(q1[3:]) @ u1[3:] if movable1 else np.zeros(3)
             w2 = gen.quat_to_R(q2[3:]) @ u2[3:]
+            if su["body1"] == "frame_rotating":
+                w1 = w * e
             want = float((w2 - w1) @ e)
-            got = float(joint.l_dot(0.0, state(), uu))
-            got2 = float(joint.angle_dot(0.0, state(), uu))
+            got = float(joint.l_dot(tcur[0], state(), uu))
+            got2 = float(joint.angle_dot(tcur[0], state(), uu))
             res.ok()
             if abs(got - want) > 1e-10 * (1 + abs(want)) or got != got2:
                 res.fail("rate_is_relative_angular_velocity_about_axis", site, abs(got - want), feats, f"step {i}")
